@@ -64,6 +64,14 @@ func strConverter(dec *Decoder, o interface{}, p interface{}) {
 	case fmt.GoStringer:
 		*(*string)(reflect2.PtrOf(p)) = o.GoString()
 	default:
+		if reflect.TypeOf(o).Kind() == reflect.Map {
+			// a map read from the wire can contain itself (an object referring to itself):
+			// fmt.Sprint would recurse until the stack is exhausted
+			if dec.Error == nil {
+				dec.Error = CastError{Source: reflect.TypeOf(o), Destination: stringType}
+			}
+			return
+		}
 		*(*string)(reflect2.PtrOf(p)) = fmt.Sprint(o)
 	}
 }
